@@ -132,6 +132,7 @@ class TreeScanningGateRemovalPass(ScanningGateRemovalPass):
         orig_num_cycles: int,
         circuit_copy: Circuit,
         cycle_and_ops: list[tuple[int, Operation]],
+        start_from_left: bool = True,
     ) -> list[Circuit]:
         """
         Generate all circuits to be instantiated in the tree scan.
@@ -146,6 +147,10 @@ class TreeScanningGateRemovalPass(ScanningGateRemovalPass):
             cycle_and_ops: list[(int, Operation)]: The next chunk
             of operations to be considered for deletion.
 
+            start_from_left (bool): Whether the scan runs from the left.
+            Deleting a cycle only shifts the cycles after it, so indices
+            are only corrected when scanning left to right.
+
         Returns:
             list[Circuit]: A list of 2^(`tree_depth`) - 1 circuits
             that remove up to `tree_depth` operations. The circuits
@@ -155,7 +160,9 @@ class TreeScanningGateRemovalPass(ScanningGateRemovalPass):
         for cycle, op in cycle_and_ops:
             new_circs = []
             for circ in all_circs:
-                idx_shift = orig_num_cycles - circ.num_cycles
+                idx_shift = 0
+                if start_from_left:
+                    idx_shift = orig_num_cycles - circ.num_cycles
                 new_cycle = cycle - idx_shift
                 work_copy = circ.copy()
                 work_copy.pop((new_cycle, op.location[0]))
@@ -194,6 +201,7 @@ class TreeScanningGateRemovalPass(ScanningGateRemovalPass):
 
             all_circs = TreeScanningGateRemovalPass.get_tree_circs(
                 circuit.num_cycles, circuit_copy, chunk,
+                self.start_from_left,
             )
 
             _logger.debug(
